@@ -44,6 +44,9 @@ ALSO = {
     "C08-r6m1": ["C08", "C03"],
     # normalize_path cancels `..` only below a depth: filed under C13 (imports land on the wrong file); the path function is C20's
     "C13-r6m1": ["C13", "C20"],
+    # round 7: byte slicing at an offset measured on another line (a panic on multi-byte indentation), as in round 6
+    "C10-r7m2": ["C10", "C08"],
+    "C18-r7m3": ["C18", "C08"],
 }
 
 
